@@ -4,10 +4,21 @@ KindsDef == {"p1", "p2", "v", "bad", "def", "on", "off", "dur", "del", "uq"}
 SFlawsDef == {"none"}
 SFlawsAll == {"none", "PARENTHESES_MISMATCH", "TAG_EMPTY", "COMMA_MISSING"}
 Emit == PrintT("@@EMIT@@" \o ToJson([par |-> par, kind |-> kind, sflaw |-> sflaw, codes |-> Codes,
-                                       nviol |-> Cardinality(Viol), viol |-> Viol]))
+                                       nviol |-> Causes, viol |-> Viol]))
 KindsStruct == {"p1", "def", "on", "off", "dur", "del", "uq"}
 \* deep sampling: only clean and single-violation trees are of interest (what the statement fixes)
-EmitFew == (Cardinality(Viol) <= 1 /\ n >= 4) => Emit
+EmitFew == (Causes <= 1 /\ n >= 4) => Emit
 KindsDup == {"p1", "p2", "v", "def"}
 EmitDup == (n >= 6 /\ EmptyGroup = {} /\ \E x \in Repeated : IsGroup(x[2]) /\ Cardinality(Kids(x[2])) >= 2) => Emit
+KindsTemporal == {"p1", "p2", "def", "on", "off", "dur", "del"}
+\* a valid or single-cause tree that was built with at least one copy step and is large
+EmitCopy == (Causes <= 1 /\ n >= 6) => Emit
+Tr(p, k) == [par |-> p, kind |-> k]
+BasesEmpty == {Tr(<<>>, <<>>)}
+\* rule-conforming constructs of the statement: temporal / duration / delay / unique groups, plain and nested tags
+BasesValid == {Tr(<<0, 1, 1>>, <<"g", "on", "def">>), Tr(<<0, 1, 1, 1, 4>>, <<"g", "def", "on", "g", "p1">>),
+               Tr(<<0, 1, 1>>, <<"g", "def", "off">>), Tr(<<0, 1, 1, 3>>, <<"g", "dur", "g", "p1">>),
+               Tr(<<0, 1, 1, 1, 4>>, <<"g", "del", "dur", "g", "p2">>), Tr(<<0, 1, 1, 1>>, <<"g", "del", "on", "def">>),
+               Tr(<<0, 1, 1>>, <<"g", "uq", "p1">>), Tr(<<0, 0, 2, 2, 4>>, <<"p1", "g", "p2", "g", "def">>)}
+EmitNear == (steps >= 1) => Emit
 ====
